@@ -611,8 +611,11 @@ def bindObject (fuel : Nat) (σ : State) (sc : List Addr) (names : List (List Ch
                 (bindNextName n σ1 sc names pname e.loc (SVal.plain (.obj ra)) none decl).bind fun names' σ2 =>
                 bindObject n σ2 sc names' r b decl i total remaining
           else
-            (bindObjectProp n σ sc names e b pname e.loc decl).bind fun names' σ1 =>
-            bindObject n σ1 sc names' r b decl (i + 1) total (remaining.filter fun k => k ≠ pname)
+            -- the shorthand `{_}` discards the property (nothing is looked up); a pair `{"_": x}` binds it like any other
+            if pname = c!"_" then bindObject n σ sc names r b decl (i + 1) total (remaining.filter fun k => k ≠ pname)
+            else
+              (bindObjectProp n σ sc names e b pname e.loc decl).bind fun names' σ1 =>
+              bindObject n σ1 sc names' r b decl (i + 1) total (remaining.filter fun k => k ≠ pname)
         | _ => errAt e.loc Leaf.ObjectPropShorthandNotVar σ
     | .Pair nameE newLhs :: r =>
       (evalToStr n σ sc c!"property" nameE).bind fun pname σ1 =>
@@ -625,14 +628,12 @@ def bindObjectProp (fuel : Nat) (σ : State) (sc : List Addr) (names : List (Lis
   match fuel with
   | 0 => .timeout
   | n + 1 =>
-    if pname = c!"_" then .ok names σ
-    else
-      match σ.getObj b with
-      | none => crashHeap σ
-      | some m =>
-        match objGet pname m with
-        | none => errAt ploc (Leaf.PropNotFound pname) σ
-        | some v => bindNext n σ sc names lhs v none decl
+    match σ.getObj b with
+    | none => crashHeap σ
+    | some m =>
+      match objGet pname m with
+      | none => errAt ploc (Leaf.PropNotFound pname) σ
+      | some v => bindNext n σ sc names lhs v none decl
 
 end
 
